@@ -1,6 +1,7 @@
 import ScionTime.Gen.SkelC10
 import ScionTime.Model.Skel.Nts
 import ScionTime.Model.Skel.Cookies
+import ScionTime.Model.Skel.NtsExt
 
 /-!
   Control-skeleton pins, group C10 (notes/SKEL.md): the control structure and the text of every
@@ -28,6 +29,17 @@ namespace ScionTime
 #eval Model.Skel.check "Cookies.EncryptedServerCookie_Decode" Gen.Skel.Cookies.EncryptedServerCookie_Decode Model.Skel.Cookies.EncryptedServerCookie_Decode
 #eval Model.Skel.check "Cookies.ServerCookie_EncryptWithNonce" Gen.Skel.Cookies.ServerCookie_EncryptWithNonce Model.Skel.Cookies.ServerCookie_EncryptWithNonce
 #eval Model.Skel.check "Cookies.EncryptedServerCookie_Decrypt" Gen.Skel.Cookies.EncryptedServerCookie_Decrypt Model.Skel.Cookies.EncryptedServerCookie_Decrypt
+#eval Model.Skel.check "NtsExt.extHdr_pack" Gen.Skel.NtsExt.extHdr_pack Model.Skel.NtsExt.extHdr_pack
+#eval Model.Skel.check "NtsExt.extHdr_unpack" Gen.Skel.NtsExt.extHdr_unpack Model.Skel.NtsExt.extHdr_unpack
+#eval Model.Skel.check "NtsExt.UniqueIdentifier_pack" Gen.Skel.NtsExt.UniqueIdentifier_pack Model.Skel.NtsExt.UniqueIdentifier_pack
+#eval Model.Skel.check "NtsExt.UniqueIdentifier_unpack" Gen.Skel.NtsExt.UniqueIdentifier_unpack Model.Skel.NtsExt.UniqueIdentifier_unpack
+#eval Model.Skel.check "NtsExt.newID" Gen.Skel.NtsExt.newID Model.Skel.NtsExt.newID
+#eval Model.Skel.check "NtsExt.Cookie_pack" Gen.Skel.NtsExt.Cookie_pack Model.Skel.NtsExt.Cookie_pack
+#eval Model.Skel.check "NtsExt.Cookie_unpack" Gen.Skel.NtsExt.Cookie_unpack Model.Skel.NtsExt.Cookie_unpack
+#eval Model.Skel.check "NtsExt.CookiePlaceholder_pack" Gen.Skel.NtsExt.CookiePlaceholder_pack Model.Skel.NtsExt.CookiePlaceholder_pack
+#eval Model.Skel.check "NtsExt.CookiePlaceholder_unpack" Gen.Skel.NtsExt.CookiePlaceholder_unpack Model.Skel.NtsExt.CookiePlaceholder_unpack
+#eval Model.Skel.check "NtsExt.Authenticator_pack" Gen.Skel.NtsExt.Authenticator_pack Model.Skel.NtsExt.Authenticator_pack
+#eval Model.Skel.check "NtsExt.Authenticator_unpack" Gen.Skel.NtsExt.Authenticator_unpack Model.Skel.NtsExt.Authenticator_unpack
 
 /-! the pins -/
 theorem C10_skel_Nts_NewRequestPacket : Gen.Skel.Nts.NewRequestPacket = Model.Skel.Nts.NewRequestPacket := rfl
@@ -45,5 +57,16 @@ theorem C10_skel_Cookies_EncryptedServerCookie_Encode : Gen.Skel.Cookies.Encrypt
 theorem C10_skel_Cookies_EncryptedServerCookie_Decode : Gen.Skel.Cookies.EncryptedServerCookie_Decode = Model.Skel.Cookies.EncryptedServerCookie_Decode := rfl
 theorem C10_skel_Cookies_ServerCookie_EncryptWithNonce : Gen.Skel.Cookies.ServerCookie_EncryptWithNonce = Model.Skel.Cookies.ServerCookie_EncryptWithNonce := rfl
 theorem C10_skel_Cookies_EncryptedServerCookie_Decrypt : Gen.Skel.Cookies.EncryptedServerCookie_Decrypt = Model.Skel.Cookies.EncryptedServerCookie_Decrypt := rfl
+theorem C10_skel_NtsExt_extHdr_pack : Gen.Skel.NtsExt.extHdr_pack = Model.Skel.NtsExt.extHdr_pack := rfl
+theorem C10_skel_NtsExt_extHdr_unpack : Gen.Skel.NtsExt.extHdr_unpack = Model.Skel.NtsExt.extHdr_unpack := rfl
+theorem C10_skel_NtsExt_UniqueIdentifier_pack : Gen.Skel.NtsExt.UniqueIdentifier_pack = Model.Skel.NtsExt.UniqueIdentifier_pack := rfl
+theorem C10_skel_NtsExt_UniqueIdentifier_unpack : Gen.Skel.NtsExt.UniqueIdentifier_unpack = Model.Skel.NtsExt.UniqueIdentifier_unpack := rfl
+theorem C10_skel_NtsExt_newID : Gen.Skel.NtsExt.newID = Model.Skel.NtsExt.newID := rfl
+theorem C10_skel_NtsExt_Cookie_pack : Gen.Skel.NtsExt.Cookie_pack = Model.Skel.NtsExt.Cookie_pack := rfl
+theorem C10_skel_NtsExt_Cookie_unpack : Gen.Skel.NtsExt.Cookie_unpack = Model.Skel.NtsExt.Cookie_unpack := rfl
+theorem C10_skel_NtsExt_CookiePlaceholder_pack : Gen.Skel.NtsExt.CookiePlaceholder_pack = Model.Skel.NtsExt.CookiePlaceholder_pack := rfl
+theorem C10_skel_NtsExt_CookiePlaceholder_unpack : Gen.Skel.NtsExt.CookiePlaceholder_unpack = Model.Skel.NtsExt.CookiePlaceholder_unpack := rfl
+theorem C10_skel_NtsExt_Authenticator_pack : Gen.Skel.NtsExt.Authenticator_pack = Model.Skel.NtsExt.Authenticator_pack := rfl
+theorem C10_skel_NtsExt_Authenticator_unpack : Gen.Skel.NtsExt.Authenticator_unpack = Model.Skel.NtsExt.Authenticator_unpack := rfl
 
 end ScionTime
